@@ -446,7 +446,13 @@ int main(int argc, char** argv){
 			long double mi = (long double)ai - v[0], mj = (long double)aj - v[1];
 			long double gain = mi * (v[2] - 0.5L * (v[4]*mi + v[5]*mj)) + mj * (v[3] - 0.5L * (v[5]*mi + v[6]*mj));
 			long double scale = std::fabs(mi*v[2]) + std::fabs(mj*v[3]) + std::fabs(mi*mi*v[4]) + std::fabs(mj*mj*v[6]) + 2*std::fabs(mi*mj*v[5]);
-			if(gain < -1e-12L * scale - 1e-12L * (mi*mi + mj*mj)) r += " !oracle box2d-negative-gain";
+			// rounding slack: the C++ forms g - Qij*(bound - alpha) and alpha + g/Q, whose terms can be much larger
+			// than the final move (ill-conditioned Q): scale with the magnitudes of those intermediates
+			long double wi = std::max(std::fabs((long double)v[7] - v[0]), std::fabs((long double)v[8] - v[0]));
+			long double wj = std::max(std::fabs((long double)v[9] - v[1]), std::fabs((long double)v[10] - v[1]));
+			long double inter = (std::fabs(mi) + std::fabs(mj)) * (std::fabs((long double)v[2]) + std::fabs((long double)v[3])
+				+ (std::fabs((long double)v[4]) + std::fabs((long double)v[5])) * wi + (std::fabs((long double)v[5]) + std::fabs((long double)v[6])) * wj);
+			if(gain < -1e-12L * (scale + inter) - 1e-12L * (mi*mi + mj*mj)) r += " !oracle box2d-negative-gain";
 		}else if(o == "tri" && t.size() == 9){
 			double v[8]; for(int k = 0; k != 8; ++k) v[k] = untok(t[k+1]);
 			double ai = v[0], aj = v[1];
